@@ -175,7 +175,7 @@ func Discharge(units []*Unit, cfg SolverCfg) {
 		}(j)
 	}
 	wg3.Wait()
-	// second chance: an obligation that ended in timeout/unknown (no model) is retried once with three times the
+	// second chance: an obligation that ended in timeout/unknown (no model) is retried once with five times the
 	// budget and fewer competitors — a loaded machine must not turn a provable obligation into an alarm
 	if !cfg.Thorough {
 		var again []job
@@ -187,17 +187,23 @@ func Discharge(units []*Unit, cfg SolverCfg) {
 				again = append(again, j)
 			}
 		}
-		if len(again) > 0 && len(again) <= 64 {
+		if len(again) > 0 && len(again) <= 96 {
 			cfg2 := cfg
-			cfg2.Timeout = cfg.Timeout * 3
+			cfg2.Timeout = cfg.Timeout * 5
 			var wg4 sync.WaitGroup
-			lim := make(chan bool, 3)
+			lim := make(chan bool, 4)
+			// the retries of one run share a budget of ten minutes: on a tree where many obligations genuinely fail the run
+			// must still end in reasonable time (what is not retried keeps its first verdict and is reported)
+			deadline := time.Now().Add(10 * time.Minute)
 			for _, j := range again {
 				wg4.Add(1)
 				lim <- true
 				go func(j job) {
 					defer wg4.Done()
 					defer func() { <-lim }()
+					if time.Now().After(deadline) {
+						return
+					}
 					prev := j.o.Status
 					j.o.Status = ""
 					if _, err := os.Stat(j.o.File); err != nil {
